@@ -153,15 +153,16 @@ def check_image(task, data, ref, page, relocs=None, label=""):
     return fails
 
 
-def check_fetch(task, bytes_at, positions, label=""):
+def check_fetch(task, bytes_at, positions, label="", holes=False):
     """fetching an instruction at an address decodes exactly the bytes the file places there: the reference is the
     task's own decoder applied directly to the file's bytes for that address (bytes_at(a, n) -> bytes | None when some
     byte is not defined by the file, owned by two segments, or a relocation slot)"""
     fails = []
     dis = task.cpu.disassemble
     for a in positions:
+        # the longest run of bytes the file defines from this address on (up to the decoder's window)
         window = None
-        for n in (16, 12, 8, 6, 4, 3, 2, 1):
+        for n in range(16, 0, -1):
             window = bytes_at(a, n)
             if window is not None:
                 break
@@ -174,12 +175,18 @@ def check_fetch(task, bytes_at, positions, label=""):
                 pass
             with visa.time_guard(5):
                 exp = dis(window)
-            if exp is None or exp.length > len(window):
-                continue
             with visa.time_guard(5):
                 got = task.read_instruction(a)
         except (Exception, visa.HarnessTimeout):
             continue  # decoder crashes are C17's business
+        if exp is None or exp.length > len(window):
+            # the bytes the file defines here are not a complete instruction: a fetch must not complete it with bytes from
+            # beyond the hole / slot that follows
+            # (only where what follows is really unmapped: HEX/SREC gaps; an ELF loader pads its pages with zeros)
+            if holes and len(window) < 16 and got is not None and hasattr(got, "bytes") and got.length > len(window):
+                fails.append(("fetch-beyond-defined-bytes", "%sread_instruction(%#x) returns %s (%d bytes: %s) but the file defines only %s there" % (label, a, got.mnemonic, got.length, got.bytes.hex(), window.hex())))
+                break
+            continue
         if got is None or not hasattr(got, "bytes"):
             fails.append(("fetch-none", "%sread_instruction(%#x) returns %r, the file's bytes %s decode as %s" % (label, a, got, window[: exp.length].hex(), exp.mnemonic)))
         elif got.bytes != exp.bytes:
@@ -328,11 +335,18 @@ def check_case(case):
             fails = []
             model = {}
             base = 0
+            hexrecs = []
             for (rt, a, d) in recs:
                 if k == "hex":
-                    if rt == 0:
+                    # extended segment (02: paragraph number, base = 16 * it) / linear (04: upper 16 bits) address records
+                    if rt == 2:
+                        base = int.from_bytes(d, "big") * 16
+                    elif rt == 4:
+                        base = int.from_bytes(d, "big") << 16
+                    elif rt == 0:
+                        hexrecs.append((0, base + a, d))
                         for i, b in enumerate(d):
-                            model[a + i] = b
+                            model[base + a + i] = b
                 else:
                     if rt in (1, 2, 3):
                         for i, b in enumerate(d):
@@ -344,7 +358,7 @@ def check_case(case):
                     break
             # fetches at the start and near the end of every data record (the next record may abut)
             pos = []
-            for (rt, a, d) in recs:
+            for (rt, a, d) in (hexrecs if k == "hex" else recs):
                 if (k == "hex" and rt == 0) or (k == "srec" and rt in (1, 2, 3)):
                     pos += [a + x for x in sorted({0, len(d) - 1, len(d) - 2, len(d) - 3}) if 0 <= x < len(d)]
 
@@ -354,7 +368,7 @@ def check_case(case):
                 return None
 
             if not fails:
-                fails += [("%s-%s" % (k, b_), d_) for b_, d_ in check_fetch(t, bytes_at, pos[:40])]
+                fails += [("%s-%s" % (k, b_), d_) for b_, d_ in check_fetch(t, bytes_at, pos[:40], holes=True)]
             return fails
     except Exception as x:
         return [(bucket_of_exception("raise:%s" % k, x), repr(x))]
@@ -416,7 +430,7 @@ def run_shard(shard, tier, seed):
             if k == 0:
                 case = dict(kind="raw", hex=bytes(rnd.getrandbits(8) for _ in range(rnd.randrange(1, 200))).hex())
             elif k == 1:
-                case = dict(kind="hex", recs=[[t, a, d.hex()] for t, a, d in G.hex_gen(rnd) if t in (0, 1)])
+                case = dict(kind="hex", recs=[[t, a, d.hex()] for t, a, d in G.hex_gen(rnd) if t in (0, 1, 2, 4)])
             else:
                 case = dict(kind="srec", recs=[[t, a, d.hex()] for t, a, d in G.srec_gen(rnd)])
             fails = check_case(case)
